@@ -73,7 +73,9 @@ class Choices(object):
     self.nsteps += 1
     if self.random_mode:
       if self.pct_points:
-        hit = self.nsteps in self.pct_points
+        # PCT-style: a few forced change points; explicit site probabilities (lock
+        # release, heated lines) still apply
+        hit = self.nsteps in self.pct_points or (p is not None and self.rng.random() < p)
       else:
         hit = self.rng.random() < (self.p_preempt if p is None else p)
       if hit:
